@@ -376,37 +376,6 @@ theorem mem_keys_of_get : ∀ {m : Kvs} {l t : Str}, m.get l = .str t → l ∈ 
     · simp only [Kvs.get, hk, if_false] at h
       simp [Kvs.keys, mem_keys_of_get h]
 
-/-- **C08 ∘ C07 (partial: translated `label` column of a flat form)**: for a question row as typed — `label` cells
-in any number of languages and any column order — if the label column ends up translated (a dict) and C08's
-reading of the cells (`specRead`: the cell suffixed with the language, else for the default language the
-unsuffixed cell) gives `t` for language `l`, then `t` is exactly what the final translation table holds for
-`l` under that question's label id.  Gap to the full effective-text statement: hint/guidance/messages/media and
-choices analogously; nested sections; the untranslated case (inline label, no itext) is C08's alone. -/
-theorem effective_text_rows_partial (dl : Str) (hk : List (Str × List Str)) (qs : List (Str × Kvs))
-    (ls : List (Str × List Kvs)) (hn : (qs.map (·.1)).Nodup) {n : Str} {row : List (Str × Str)} {out m : Kvs}
-    (hrow : RowOk dl hk textCols row) (hout : processRow dl hk row = .ok out) (hq : (n, out) ∈ qs)
-    (hv : out.get "label".toList = .dict m) {l t : Str}
-    (hspec : specRead dl (colCells hk "label".toList row) l = some t) :
-    valueAt (table (sheetSurvey dl qs ls)) l (path ("/data".toList ++ '/' :: n) "label") "long".toList = some t := by
-  obtain ⟨out', hout', hget⟩ := row_grouping dl hk row .nil hrow.headers hrow.noClash
-  have hoo : out' = out := by
-    have : processRow dl hk row = .ok out' := hout'
-    rw [hout] at this; exact (Except.ok.inj this).symm
-  subst hoo
-  have hcol : out'.get "label".toList = colVal dl .none (colCells hk "label".toList row) := by
-    rw [hget, colFold_eq_colVal dl hk _ row _ (hrow.oneLevel _ (by simp [textCols]))]
-    simp [Kvs.get]
-  have hread := column_reading dl (colCells hk "label".toList row)
-    (colCells_texts hk _ row hrow.nonEmpty) (hrow.distinct _ (by simp [textCols])) l
-  rw [← hcol, hv, hspec] at hread
-  have hget_l : m.get l = .str t := by
-    simp only [readLang] at hread
-    split at hread
-    · next t' ht' => cases hread; exact ht'
-    · cases hread
-  rw [effective_label dl qs ls hn hq hv (mem_keys_of_get hget_l), hget_l]
-  rfl
-
 /-! ### `RowOk` as a decidable check (used for the non-vacuity example; evaluable on any concrete row) -/
 
 def noClashFrom (dk : Str) (hk : List (Str × List Str)) (out : Kvs) :
@@ -513,7 +482,7 @@ example :
        (C07.refs x).length == 5 && (out x).translations.length == 3
      | _, _ => false) = true := by decide +kernel
 
-/-- non-vacuity of `effective_text_rows_partial`: the first example row (columns `label::fr`, `label`, …) is `RowOk`,
+/-- non-vacuity of `effective_label` (the general statement from the sheets is `C07Text.effective_text_rows`): the first example row (columns `label::fr`, `label`, …) is `RowOk`,
 its label column ends up a dict, the spec reads `Qfr` for `fr` and `Q` for the default language, and that is what
 the final table holds under `/data/a:label` -/
 example :
